@@ -381,8 +381,20 @@ def check_models(case):
         return [table[i][j] for i in range(m)]
 
     params = ', '.join(f'a{i}' for i in range(n))
+    # a callable that hands out rows it OWNS (the same list object for the same input every time)
+    stored_rows = [[table[i][j] for i in range(m)] for j in range(W)]
+
+    def f_stored(args):
+        j = 0
+        for a in args:
+            j = (j << 1) | (1 if a else 0)
+        return stored_rows[j]
+
+    bridged_src = TruthTableModel([list(r) for r in table])
     models = {'TruthTableModel': TruthTableModel(arg), 'PyFunctionModel': PyFunctionModel(f, input_size=n),
-              'PyFunctionModel.from_positional': PyFunctionModel.from_positional(eval(f'lambda {params}: f([{params}])', {'f': f}))}
+              'PyFunctionModel.from_positional': PyFunctionModel.from_positional(eval(f'lambda {params}: f([{params}])', {'f': f})),
+              'PyFunctionModel(stored rows)': PyFunctionModel(f_stored, input_size=n, output_size=m),
+              'PyFunctionModel(TruthTableModel.check)': PyFunctionModel(bridged_src.check, input_size=n, output_size=m)}
     rows = [tuple(bool((j >> (n - 1 - i)) & 1) for i in range(n)) for j in range(W)]
     definition = {}
     cells = [(i, j) for i in range(m) for j in range(W) if (dcs[i] >> j) & 1]
@@ -414,6 +426,18 @@ def check_models(case):
         for j, x in enumerate(rows):
             if list(fn.evaluate(list(x))) != [expected[i][j] for i in range(m)]:
                 raise Violation('model_define', f'{name}.define(d).evaluate({x})')
+        # completing a model must not change the model: ask it again, then complete it a second time differently
+        mt2 = mod.get_model_truth_table()
+        if not all(same(mt2[i][j], table[i][j]) for i in range(m) for j in range(W)):
+            raise Violation('model_changed_by_define', f'{name}: the model answers differently after define() + evaluation of the completion')
+        definition2 = {k: (not v) for k, v in definition.items()}
+        expected2 = [[(not expected[i][j]) if (dcs[i] >> j) & 1 else expected[i][j] for j in range(W)] for i in range(m)]
+        fn2 = mod.define(dict(definition2))
+        got2 = [list(map(bool, r)) for r in fn2.get_truth_table()]
+        if got2 != expected2:
+            raise Violation('model_second_define', f'{name}: a second define() with another definition gives {got2}, expected {expected2}')
+        if [list(map(bool, r)) for r in fn.get_truth_table()] != expected:
+            raise Violation('model_first_completion_changed', f'{name}: the first completion changed after the second define()')
         if case['incomplete'] and cells:
             d2 = dict(definition)
             i, j = cells[0]
